@@ -15,7 +15,7 @@ func init() {
 		ID:   "C19",
 		Rule: "encoder: one case = one valid VLA (stream count, RID, subset of the stream x spatial slots, temporal-layer pattern, bitrate pattern, resolution on/off) marshalled, compared byte for byte with the reference encoder, unmarshalled into a fresh and a used receiver; invalid values must be rejected; decoder: one case = one byte string (short strings, truncations and single-byte mutations of valid encodings) into a fresh and a used receiver; non-trivial = allocation has at least two active layers / the decoder accepts",
 		Assumptions: []string{
-			"EVERY subset of the (stream < count, spatial) slots for count 1..4 (16 + 256 + 4096 + 65536) x every RID; temporal-layer patterns all-1 / all-4 / cyclic 1-2-3-4 (+ cyclic from 3) ; bitrate patterns small / cycling through the LEB128 size classes {0,1,127,128,16383,16384,2^21,2^28} / all 2^28 / cycling through every bit length (2^j and 2^j-1, j = 1..56, i.e. up to the largest value of an 8-octet LEB128); resolution off / on with sizes cycling through {1,2,256,65536} and frame rates {0,1,255} (with the bitrate pattern all 2^28 every record is 1x1 at 0 fps, i.e. all zero octets; with the bit-length pattern every record is 65536x65536 at 255 fps, all FF octets)",
+			"EVERY subset of the (stream < count, spatial) slots for count 1..4 (16 + 256 + 4096 + 65536) x every RID; temporal-layer patterns all-1 / all-4 / cyclic 1-2-3-4 (+ cyclic from 3) ; bitrate patterns small / cycling through the LEB128 size classes {0,1,127,128,16383,16384,2^21,2^28} / all 2^28 / cycling through every bit length (2^j and 2^j-1, j = 1..32, i.e. up to 2^32-1; bitrates beyond 32 bits are not demanded: the LEB128 reader of the AV1 specification, which the extension shares, is defined up to 2^32-1); resolution off / on with sizes cycling through {1,2,256,65536} and frame rates {0,1,255} (with the bitrate pattern all 2^28 every record is 1x1 at 0 fps, i.e. all zero octets; with the bit-length pattern every record is 65536x65536 at 255 fps, all FF octets)",
 			"temporal-layer count vectors: for 13 slot sets of 1..16 active layers, EVERY vector in {1..4}^L for L <= 8, and for L > 8 every vector that is 1 except in one or two positions; bitrate patterns small / LEB128 classes; resolution off / on",
 			"the empty allocation is only round-tripped (its layout is a special case of the specification)",
 			"decoder strings: nil, empty, all strings of 1-2 bytes, all 3-byte strings (thorough) / first byte x 40x40 symbols (quick); every truncation and single-byte replacement of 300 valid encodings",
@@ -34,8 +34,8 @@ var c19RateClasses = []int{0, 1, 127, 128, 16383, 16384, 1 << 21, 1 << 28}
 
 var c19BitLengths = func() []int {
 	var out []int
-	for j := 1; j <= 56; j++ { // 2^56-1 is the largest value of an 8-octet LEB128
-		if j < 56 {
+	for j := 1; j <= 32; j++ { // up to 2^32-1: what a leb128() of the AV1 specification may carry
+		if j < 32 {
 			out = append(out, 1<<uint(j))
 		}
 		out = append(out, 1<<uint(j)-1)
@@ -75,9 +75,9 @@ func c19BuildTL(count, rid int, mask uint32, tl func(k int) int, ratePat int, ha
 				case 1:
 					rates[t] = c19RateClasses[(k+t)%8]
 				case 3:
-					// every bit length: 2^j and 2^j - 1 for j = 1..56, entered at a point that
+					// every bit length: 2^j and 2^j - 1 for j = 1..32, entered at a point that
 					// depends on the slot set
-					rates[t] = c19BitLengths[(int(mask%113)+k*4+t)%len(c19BitLengths)]
+					rates[t] = c19BitLengths[(int(mask%61)+k*4+t)%len(c19BitLengths)]
 				default:
 					rates[t] = 1 << 28
 				}
